@@ -20,7 +20,7 @@ ASSUMPTIONS = ["latest admissible rejection stage per fault: parse for literal f
                "expand_macros for faults arising by macro substitution, run otherwise",
                "zero/negative strides and negative loop counts are not in the statement and not generated"]
 TIERS = {"quick": {"shards": 8, "budget_s": 320}, "thorough": {"shards": 16, "budget_s": 360}}
-REQUIRE = {"route:builder": 500, "route:parser-let-map": 500, "route:parser-let": 500, "internal-context-names-observed": 1, "faulty-cases": 2000, "twin-cases": 2000, "twin-accepted": 2000, "precedence-probes": 1}
+REQUIRE = {"route:macros-first": 500, "route:parser-macro-let": 500, "route:builder": 500, "route:parser-let-map": 500, "route:parser-let": 500, "internal-context-names-observed": 1, "faulty-cases": 2000, "twin-cases": 2000, "twin-accepted": 2000, "precedence-probes": 1}
 
 STAGES = ["parse", "fill_in_let", "expand_macros", "run"]
 
@@ -50,6 +50,22 @@ def pipeline(prog, ov, native=True, route="passes", bseed=0):
         o = lib.outcome(lib.fill_in_let, c, ov or None)
         if o[0] != "ok":
             return "fill_in_let", o, None
+    elif route == "macros-first":
+        # the other order of the two passes: macros expanded while the lets are symbolic, then lets (and overrides) filled in
+        o = lib.outcome(lib.parse, text, X.native() if native else None)
+        if o[0] != "ok":
+            return "parse", o, None
+        o = lib.outcome(lib.expand_macros, o[1])
+        if o[0] != "ok":
+            return "expand_macros", o, None
+        o = lib.outcome(lib.fill_in_let, o[1], ov or None)
+        if o[0] != "ok":
+            return "fill_in_let", o, None
+    elif route == "parser-macro-let":
+        # the parser does both (macros first, which is its own order)
+        o = lib.outcome(lib.parse, text, X.native() if native else None, override_dict=ov or None, expand_macro=True, expand_let=True)
+        if o[0] != "ok":
+            return "parse", o, None
     else:
         kw = {"expand_let": True} if route == "parser-let" else {"expand_let_map": True}
         o = lib.outcome(lib.parse, text, X.native() if native else None, override_dict=ov or None, **kw)
@@ -94,6 +110,8 @@ def judge(case):
         fails.append(("wrong-exception:%s:%s:%s" % (fc, o[1], stage), {"error": o[2], "ov": ov}))
     else:
         latest = case.get("latest", "run")
+        if case.get("route") in ("macros-first", "parser-macro-let"):
+            latest = "run"  # the stages come in another order: only refusal as such is judged
         if STAGES.index(stage) > STAGES.index(latest):
             fails.append(("rejected-too-late:%s:known-at-%s:rejected-at-%s" % (fc, latest, stage), {"error": o[2], "ov": ov}))
         if not str(o[2]).strip():
@@ -181,6 +199,15 @@ def gen_cases(rng):
             m = ("macro", "mi", "k", ("sequential_block", ("gate", "X", ("array_item", "q", "k"))))
             add("index-macro:%s" % cls(bad, n), "expand_macros", wrap(hdr, [("gate", "mi", bad)], [m]),
                 wrap(hdr, [("gate", "mi", good)], [m]))
+            # a let handed to the macro as its argument, the faulty value arriving through the override dictionary (directly and
+            # through a second macro)
+            hl = [("let", "i", good)] + hdr
+            hl = [x for x in hl if x[0] == "let"] + [x for x in hl if x[0] != "let"]
+            mo = ("macro", "mo", "j", ("sequential_block", ("gate", "mi", "j")))
+            add("index-macro-argument-let-override:%s" % cls(bad, n), "expand_macros", wrap(hl, [("gate", "mi", "i")], [m]),
+                wrap(hl, [("gate", "mi", "i")], [m]), ov={"i": bad}, twin_ov={"i": 0})
+            add("index-macro-argument-let-override:nested:%s" % cls(bad, n), "expand_macros", wrap(hl, [("gate", "mo", "i")], [m, mo]),
+                wrap(hl, [("gate", "mo", "i")], [m, mo]), ov={"i": bad}, twin_ov={"i": 0})
             # ... where the parameter shadows a let used by an identical statement elsewhere
             hk = [("let", "k", 0)] + hdr
             pre = ("macro", "uk", ("sequential_block", ("gate", "X", ("array_item", "q", "k"))))
@@ -596,7 +623,7 @@ def shard(ctx):
         i += 1
         cases = gen_cases(ctx.rng)
         for c in cases:
-            route = ctx.rng.choice(["passes", "passes", "parser-let", "parser-let-map", "builder"])
+            route = ctx.rng.choice(["passes", "passes", "parser-let", "parser-let-map", "builder", "macros-first", "parser-macro-let"])
             bs = ctx.rng.randrange(1 << 30)
             fp = c["prog"]
             tp, tov = c["twin"]
